@@ -210,6 +210,12 @@ Definition check_summary_msg (r : record) (msg : list (list Z)) : bool :=
 Definition C14_check (r : record) (recmsg summsg : list (list Z)) : bool :=
   check_record_msg r recmsg && check_summary_msg r summsg.
 
+(* A batch: several records whose messages were all built before any of them was read (a built message is
+   held by its publisher goroutine while other messages are being built).  Every held message must still
+   decode to ITS OWN record. *)
+Definition C14_check_batch (b : list (record * list (list Z) * list (list Z))) : bool :=
+  forallb (fun t => C14_check (fst (fst t)) (snd (fst t)) (snd t)) b.
+
 (* ---------- the domain of the property: records whose fields fit the fixed-width header ---------- *)
 
 Definition fits (r : record) : Prop :=
